@@ -304,6 +304,9 @@ def eval_phase(rp, rng=None):
 
 
 # ----------------------------------------------------------------------------- singular / zero bins
+_SCOUNT = [0]
+
+
 def make_singular(rng, tier, idx):
     D = int(rng.integers(2, 9))
     F = int(rng.integers(2, 33 if tier == 'thorough' else 13))
@@ -332,11 +335,16 @@ def make_singular(rng, tier, idx):
                 a = crandn(rng, D, r)
             Pn[f] = a @ herm(a)
     auto = bool(rng.random() < 0.3)
+    _SCOUNT[0] += 1
+    single = cls in ('zero', 'zerorow') and _SCOUNT[0] % 3 == 0
+    if single:
+        # single-precision PSD stacks (complex64 STFTs are common): only the finiteness / shape / neighbour clauses
+        Px, Pn = Px.astype(np.complex64), Pn.astype(np.complex64)
     rp = {'fn': 'singular', 'which': which, 'Px': Px, 'Pn': Pn, 'bins': bins, 'cls': cls,
           'ref': None if auto else int(rng.integers(0, D)),
           'mu': float(rng.choice([0.5, 1.0, 7.0, 100.0])) if rng.random() < 0.7 else None}
     fail, key, coq, raised = eval_singular(rp, rng)
-    nm = 'singular %s %s bins=%s F=%d D=%d ref=%s mu=%s' % (which, cls, bins, F, D, rp['ref'], rp['mu'])
+    nm = 'singular %s %s%s bins=%s F=%d D=%d ref=%s mu=%s' % (which, cls, '/complex64' if single else '', bins, F, D, rp['ref'], rp['mu'])
     return Case(nm, coq=coq, pred_fail=fail, key=key, nontrivial=True, digest_=core.digest(Px, Pn, which, rp['ref'], rp['mu']),
                 sample={'name': nm, 'Pn': core.small(Pn, 3)}, replay=rp, raised=raised, kind='singular/%s/%s' % (which, cls))
 
@@ -369,10 +377,13 @@ def eval_singular(rp, rng=None):
                 '%s:nonfinite' % tag, None, None)
     reg = [f for f in range(F) if f not in bins]
     coq_parts = []
+    single = Px.dtype == np.complex64
     if ref is not None and reg:
         wr = call(Px[reg], Pn[reg])
-        if relerr(wr, w[reg]) > 1e-9:
+        if relerr(wr, w[reg]) > (1e-3 if single else 1e-9):
             return 'regular bins change when singular neighbours are present (rel dev %.3g)' % relerr(wr, w[reg]), '%s:neighbours' % tag, None, None
+    if single:
+        return None, None, None, None
     # composition step on regular and on all-zero bins, given the solve result the code obtains
     phi = stable_solve(Pn, Px)
     r = ref
